@@ -59,6 +59,12 @@ def make_recipe(rng, tier):
         X = np.round(2 * X)
     elif rng.random() < 0.2:
         X = X * float(rng.choice([1e-3, 1e-5, 1e-7]))  # the same signal in a small unit of measurement
+    if not int_dtype and rng.random() < 0.05:
+        # finite data whose squares overflow: some interval scores become inf - inf = NaN.  A NaN
+        # does not exceed any threshold, so no changepoint may rest on a NaN-scored interval
+        for _ in range(int(rng.integers(1, 3))):
+            X[int(rng.integers(n)), int(rng.integers(p))] = float(rng.choice([1e160, -1e160, 1e200]))
+        kind = kind + "+overflow"
     return {"det": spec, "X": X, "data_kind": kind, "int_dtype": int_dtype, "history": H.pick(rng),
             "hseed": int(rng.integers(2 ** 31)), "frame": "df" if rng.random() < 0.5 else None}
 
@@ -133,8 +139,12 @@ def exec_case(ctx, r):
     for i in range(len(st)):
         splits = np.arange(st[i] + msl, en[i] - msl + 1)
         cuts = np.column_stack((np.full(splits.size, st[i]), splits, np.full(splits.size, en[i])))
-        agg = cs.evaluate(cuts).sum(axis=1)
+        with np.errstate(all="ignore"):
+            agg = cs.evaluate(cuts).sum(axis=1)
         ctx.stat("table_rows_checked")
+        if not (np.all(np.isfinite(agg)) and np.isfinite(sc[i])):
+            ctx.stat("nonfinite_rows_skipped")  # overflowing data: only the selection clauses are judged
+            continue
         tol = 1e-9 * np.abs(agg).max() + 1e-300  # purely relative: scores scale with the data's unit
         if abs(sc[i] - agg.max()) > tol:
             ctx.violation(sub, "row-score", f"{label}: interval [{st[i]},{en[i]}) reports score {sc[i]} "
@@ -154,7 +164,10 @@ def exec_case(ctx, r):
     def removes(i):
         return (st <= am[i]) & (am[i] <= en - 1)
 
-    outs = greedy_outcomes(sc, [int(a) for a in am], removes, thr)
+    if np.any(np.isnan(sc)):
+        ctx.stat("cases[NaN scores]")
+    # a NaN score does not exceed the threshold: for the selection it is an interval that never counts
+    outs = greedy_outcomes(np.where(np.isnan(sc), -np.inf, sc), [int(a) for a in am], removes, thr)
     if outs is None:
         ctx.stat("near_tie_skipped")
     else:
